@@ -185,11 +185,11 @@ Definition nf {A} (d : dec A) : Prop := forall bs, d bs <> Err EOutOfFuel.
 
 Lemma cread_shrinks n : shrinks (cread n) n.
 Proof.
-  intros bs a r H. unfold cread in H. destruct (Nat.ltb (length bs) n) eqn:E; [discriminate|].
+  intros bs a r H. rewrite cread_unfold in H. destruct (Nat.ltb (length bs) n) eqn:E; [discriminate|].
   inversion H; subst. rewrite skipn_length. apply Nat.ltb_ge in E. lia.
 Qed.
 Lemma cread_nf n : nf (cread n).
-Proof. intros bs H. unfold cread in H. destruct (Nat.ltb (length bs) n); discriminate. Qed.
+Proof. intros bs H. rewrite cread_unfold in H. destruct (Nat.ltb (length bs) n); discriminate. Qed.
 
 Ltac dec_int_shrinks :=
   let bs := fresh "bs" in let a := fresh "a" in let r := fresh "r" in let H := fresh "H" in
